@@ -23,7 +23,7 @@ def run(tier, replay=None):
                          deadline_s=700 if tier == "quick" else 3600)
     _cat.report_pipeline(rep, builts, total, "ext")
     from ..enum import kinds
-    kcells = cxx.QUICK_CELLS if tier == "quick" else cxx.ALL_CELLS
+    kcells = cxx.CODEC_CELLS if tier == "quick" else cxx.ALL_CELLS
     ks = []
     for bo in ("littleEndian", "bigEndian"):
         s = kinds.kinds_schema(bo)
